@@ -155,6 +155,9 @@ var operators = []map[string]tokType{
 		"~>": tokBacon,
 		",":  tokComma,
 	},
+
+	// Composer constraints are not supported yet; only plain versions parse.
+	Composer: {},
 }
 
 func (sys System) typeOf(r rune) uint8 {
